@@ -97,8 +97,11 @@ def sdr_show(ipmi, s):
 
     print("SDR record ID:    0x%04x" % s.id)
     print("SDR type:         0x%02x" % s.type)
-    print("Device Id string: %s" % s.device_id_string)
-    print("Entity:           %s.%s" % (s.entity_id, s.entity_instance))
+    # only sensor and device locator records have an id string and an entity
+    if hasattr(s, 'device_id_string'):
+        print("Device Id string: %s" % s.device_id_string)
+    if hasattr(s, 'entity_id'):
+        print("Entity:           %s.%s" % (s.entity_id, s.entity_instance))
     if s.type is pyipmi.sdr.SDR_TYPE_FULL_SENSOR_RECORD:
         (raw, states) = ipmi.get_sensor_reading(s.number, s.owner_lun)
         value = s.convert_sensor_raw_to_value(raw)
